@@ -18,6 +18,9 @@ INVARIANT InvPow
 INVARIANT InvPow2
 INVARIANT InvChain
 INVARIANT InvGroupFlat
+INVARIANT InvScaled
+INVARIANT InvSrc
+INVARIANT InvScopeConfigured
 INVARIANT InvLiteral
 INVARIANT InvScopeDefault
 INVARIANT InvScopeLocal
